@@ -38,6 +38,10 @@ def FUNC(fam, q_small, t_small, q_host=None, t_host=None, q_ts=None, t_ts=None, 
         st.append(S("host-asan", "func", ["--fam", fam], q_host, t_host))
     if q_ts:
         st.append(S("small-nosse-ts-asan", "func", ["--fam", fam], q_ts, t_ts))
+    # the same oracle in the OpenMP build with several threads: the value clauses of the property do not depend on the build, and a routine
+    # that gains (or already has) a parallel region is only exercised there
+    st.append(S("small-gomp-asan", "func", ["--fam", fam], (max(300, q_small[0] // 8), q_small[1]), (t_small[0] // 8, t_small[1]),
+                env={"OMP_NUM_THREADS": "4"}, workers=8))
     if extra:
         st.extend(extra)
     return st
@@ -208,12 +212,12 @@ PROPS["C12"] = dict(
         _c12("small-nosse-ts-asan", (1500, 420), (12000, 1200)),
         _c12("host-gomp-asan", (1500, 420), (12000, 1200), env={"OMP_NUM_THREADS": "4"}),
         _c12("odd-asan", (1500, 420), (12000, 1200)),
+        _c12("small-gomp-asan", (1500, 420), (12000, 1200), env={"OMP_NUM_THREADS": "3"}, workers=8),
         _c12("small-O3-plain", (1500, 420), (12000, 1200)),
         _c12("host-clang-asan", (1500, 420), (12000, 1200)),
     ] + ([
         _c12("mid-debug-asan", (0, 420), (12000, 1200)),
         _c12("host-nosse-plain", (0, 420), (12000, 1200)),
-        _c12("small-gomp-asan", (0, 420), (12000, 1200), env={"OMP_NUM_THREADS": "3"}),
     ] if tier == "thorough" else []),
 )
 
